@@ -64,7 +64,11 @@ fn op_state(out: &mut Out, slot: &str, depth: usize, s: &State) {
         let d = KeyDigest::new(k, v);
         l.push_str(&format!(" {} {} {} {}", hex(k.as_bytes()), d.key_hash, d.value_hash, MRv::from_real(v).show()));
     }
-    out.op(l, format!("ok {} conflicts=0", s.len()));
+    // a slot whose state AND iteration order are what the model was last told is not re-sent
+    let fresh = LAST_STATE.with(|c| c.borrow_mut().insert(slot.to_string(), l.clone()).map(|old| old != l).unwrap_or(true));
+    if fresh {
+        out.op(l, format!("ok {} conflicts=0", s.len()));
+    }
 }
 
 /// `W` line: the word streams the real code hashes for this state (bucket folds in iteration
@@ -95,6 +99,9 @@ fn words_entries(s: &State, depth: usize, d: &StateDigest, acc: &mut Vec<(Vec<u6
     if !d.buckets.is_empty() {
         let mut c = d.buckets[0].clone();
         for n in &d.buckets[1..] {
+            if acc.len() > 64 {
+                break; // a sample (see op_words)
+            }
             let c2 = MerkleNode::combine(&c, n);
             if !(c.count == 0 && n.count == 0) {
                 acc.push((vec![c.hash, n.hash], c2.hash));
@@ -110,8 +117,20 @@ thread_local! {
     static EMITTED: std::cell::RefCell<std::collections::HashSet<Vec<u64>>> = std::cell::RefCell::new(std::collections::HashSet::new());
 }
 
+thread_local! {
+    /// the last `S` line sent per slot since the last RESET
+    static LAST_STATE: std::cell::RefCell<HashMap<String, String>> = std::cell::RefCell::new(HashMap::new());
+}
+
+/// the model's copy of a slot was changed by an op (SYNC / PULL / MAPPLY / …): the next `S` of
+/// that slot is sent whatever it says
+fn invalidate(slot: &str) {
+    LAST_STATE.with(|c| { c.borrow_mut().remove(slot); });
+}
+
 fn op_reset(out: &mut Out) {
     EMITTED.with(|e| e.borrow_mut().clear());
+    LAST_STATE.with(|c| c.borrow_mut().clear());
     out.op("RESET".into(), "ok".into());
 }
 
@@ -120,7 +139,9 @@ fn op_words(out: &mut Out, entries: &[(Vec<u64>, u64)]) {
         let mut e = e.borrow_mut();
         entries.iter().filter(|(w, _)| e.insert(w.clone())).collect()
     });
-    let entries: Vec<(Vec<u64>, u64)> = fresh.into_iter().cloned().collect();
+    // the model hashes itself (SipHash-1-3 over the same words); the D lines compare every bucket
+    // node and the root, so a sample of the word streams is enough here
+    let entries: Vec<(Vec<u64>, u64)> = fresh.into_iter().take(24).cloned().collect();
     let entries = &entries[..];
     let mut seen = BTreeSet::new();
     let mut l = String::new();
@@ -135,7 +156,22 @@ fn op_words(out: &mut Out, entries: &[(Vec<u64>, u64)]) {
             l.push_str(&format!(" {}", h));
         }
     }
-    out.op(format!("W {}{}", m, l), "ok".into());
+    out.op(format!("W {}{}", m, l), "ok conflicts=0".into());
+}
+
+/// `SIP` lines: the real `DefaultHasher` on raw byte strings of every length 0..=40 (block
+/// boundaries of SipHash at 7/8/9, 15/16/17, …) and on random longer ones — the model's `sip13`
+/// must be the same function
+fn op_sip(out: &mut Out, rng: &mut Rng, n: usize) {
+    use std::hash::Hasher;
+    for i in 0..n {
+        let len = if i <= 40 { i } else { rng.range(41, 300) as usize };
+        let bytes: Vec<u8> = (0..len).map(|_| match rng.below(4) { 0 => 0, 1 => 255, _ => rng.below(256) as u8 }).collect();
+        let mut h = std::collections::hash_map::DefaultHasher::new();
+        h.write(&bytes);
+        out.op(format!("SIP {}", hex(&bytes)), h.finish().to_string());
+        out.count("sip:raw-byte-strings");
+    }
 }
 
 fn digest_of(s: &State, depth: usize) -> StateDigest {
@@ -143,6 +179,15 @@ fn digest_of(s: &State, depth: usize) -> StateDigest {
 }
 
 fn rand_key(rng: &mut Rng) -> String {
+    if rng.chance(1, 25) {
+        return match rng.below(5) {
+            0 => "K".repeat(120),
+            1 => "\u{10FFFF}\u{0}".into(),
+            2 => "a".repeat(rng.range(1, 9) as usize), // keys that are prefixes of each other
+            3 => "é€😀".into(),
+            _ => String::new(),
+        };
+    }
     match rng.below(6) {
         0 => format!("k{}", rng.below(30)),
         1 => format!("user:{}", rng.below(1000)),
@@ -168,7 +213,68 @@ fn plain_value(rng: &mut Rng) -> ReplicatedValue {
     }
 }
 
+/// the extremes of every field a ReplicatedValue holds (input alphabet): empty / binary / large
+/// payloads, u64::MAX stamps / counts / sequences / expiry, rf 0 and 255, empty and long and
+/// multi-byte strings that are prefixes of each other, Some(empty) vs None
+fn extreme_value(rng: &mut Rng) -> ReplicatedValue {
+    use crate::enc::MLww;
+    let num = |rng: &mut Rng| -> u64 { *rng.pick(&[0u64, 1, 255, 256, 65535, 1 << 32, (1 << 63) - 1, 1 << 63, u64::MAX - 1, u64::MAX]) };
+    // Lamport times stay below u64::MAX: apply_remote_delta advances the receiver's clock to
+    // max(local, remote) + 1 (the overflow of the clock itself is C08's subject, not the digest's)
+    let time = |rng: &mut Rng| -> u64 { *rng.pick(&[0u64, 1, 255, 1 << 32, (1 << 63) - 1, 1 << 63, u64::MAX - 100_000]) };
+    let bytes = |rng: &mut Rng| -> Vec<u8> {
+        match rng.below(7) {
+            0 => vec![],
+            1 => vec![0],
+            2 => vec![255],
+            3 => (0..=255u8).collect(),
+            4 => vec![b'x'; 4_100],
+            5 => vec![255; 9],
+            _ => (0..rng.range(1, 20)).map(|_| rng.below(256) as u8).collect(),
+        }
+    };
+    let name = |rng: &mut Rng| -> String {
+        match rng.below(10) {
+            0 => String::new(),
+            1 => "a".into(),
+            2 => "aa".into(),
+            3 => "aaa".into(),
+            4 => "b".into(),
+            5 => "é€😀".into(),
+            6 => "\u{10FFFF}".into(),
+            7 => "\u{7f}\u{0}".into(),
+            8 => "n".repeat(100),
+            _ => format!("{}{}", "é".repeat(rng.below(3) as usize), rng.below(3)),
+        }
+    };
+    let lww = |rng: &mut Rng| -> MLww {
+        let tomb = rng.chance(1, 3);
+        MLww { v: if rng.chance(1, 4) { None } else { Some(bytes(rng)) }, t: time(rng), r: num(rng), tomb }
+    };
+    let map = |rng: &mut Rng| -> BTreeMap<u64, u64> { (0..rng.below(4)).map(|_| (num(rng), num(rng))).collect() };
+    let crdt = match rng.below(6) {
+        0 => MCrdt::Lww(lww(rng)),
+        1 => MCrdt::G(map(rng)),
+        2 => MCrdt::P(map(rng), map(rng)),
+        3 => MCrdt::S((0..rng.below(6)).map(|_| name(rng)).collect()),
+        4 => MCrdt::O((0..rng.below(5)).map(|_| (name(rng), (0..rng.range(1, 3)).map(|_| (num(rng), num(rng))).collect())).collect(), map(rng)),
+        _ => MCrdt::H((0..rng.below(5)).map(|_| (name(rng), lww(rng))).collect()),
+    };
+    MRv {
+        crdt,
+        vc: match rng.below(3) { 0 => None, 1 => Some(BTreeMap::new()), _ => Some(map(rng)) },
+        exp: match rng.below(3) { 0 => None, _ => Some(num(rng)) },
+        t: time(rng),
+        r: num(rng),
+        rf: match rng.below(4) { 0 => None, 1 => Some(0), 2 => Some(255), _ => Some(rng.below(256) as u8) },
+    }
+    .to_real()
+}
+
 fn gen_value(rng: &mut Rng, pool: &[ReplicatedValue]) -> ReplicatedValue {
+    if rng.chance(1, 12) {
+        return extreme_value(rng);
+    }
     match rng.below(10) {
         0..=4 => plain_value(rng),
         5..=6 => random_value(rng).to_real(),
@@ -299,7 +405,17 @@ fn digest_ops(out: &mut Out, rng: &mut Rng, p: &Pair, src: &str) -> (StateDigest
     // on both maps; for two maps of the same state the answers must be identical, whatever the
     // two iteration orders are
     {
-        let buckets: Vec<usize> = (0..da.buckets.len()).filter(|_| rng.chance(2, 3)).collect();
+        // two thirds of the buckets (of the OCCUPIED ones plus a few empty ones when the tree is deep:
+        // a bucket list of 2^18 entries is searched linearly per key by the code and by the model)
+        let buckets: Vec<usize> = if da.buckets.len() <= 4096 {
+            (0..da.buckets.len()).filter(|_| rng.chance(2, 3)).collect()
+        } else {
+            let mut v: Vec<usize> = (0..da.buckets.len()).filter(|i| da.buckets[*i].count > 0 || db.buckets[*i].count > 0).filter(|_| rng.chance(2, 3)).collect();
+            for _ in 0..16 {
+                v.push(rng.below(da.buckets.len() as u64) as usize);
+            }
+            v
+        };
         let limit = match rng.below(3) { 0 => 1, 1 => rng.range(1, p.a.len().max(1) as u64) as usize, _ => 1000 };
         let mut mgr = AntiEntropyManager::new(ReplicaId::new(1), AntiEntropyConfig::default());
         mgr.config.merkle_tree_depth = p.depth;
@@ -440,6 +556,8 @@ fn sync_ops(out: &mut Out, p: Pair, limit: usize, max_rounds: usize, src: &str) 
         let (na, nb) = (&sim.nodes[0].replica_state.replicated_keys, &sim.nodes[1].replica_state.replicated_keys);
         out.op(format!("SYNC {}", limit), format!("{} | {}", show_state("a", na), show_state("b", nb)));
         last_changed = canon(na) != canon(&pa) || canon(nb) != canon(&pb);
+        if canon(na) != canon(&pa) { invalidate("a"); }
+        if canon(nb) != canon(&pb) { invalidate("b"); }
         // a configured limit must let a sync make progress: the limit in effect is at least one key
         let eff = limit.max(1);
         // the answers run_anti_entropy_sync will request from both sides (the same public call)
@@ -658,6 +776,7 @@ fn msg_ops(out: &mut Out, p: Pair, limit: usize, full: bool, max_rounds: usize, 
                 }
             }
             changed |= canon(&pre_r) != canon(now_r);
+            if canon(&pre_r) != canon(now_r) { invalidate(slot); }
         }
         rounds += 1;
         if !changed {
@@ -687,12 +806,446 @@ fn msg_ops(out: &mut Out, p: Pair, limit: usize, full: bool, max_rounds: usize, 
     }
 }
 
+// ------------------------------------------------------------------------------------------------
+// the AntiEntropyManager protocol as a state machine: three real managers, message registers
+// (digests / requests / responses are VALUES that can be processed late, twice, or by another
+// node), local writes between any two steps
+// ------------------------------------------------------------------------------------------------
+
+struct Sess {
+    mgrs: Vec<AntiEntropyManager>,
+    sts: Vec<ShardReplicaState>,
+    depth: Vec<usize>,
+    digs: BTreeMap<u64, StateDigest>,
+    verdicts: BTreeMap<usize, Option<Vec<usize>>>,
+    reqs: BTreeMap<u64, redis_sim::replication::anti_entropy::SyncRequest>,
+    resps: BTreeMap<u64, redis_sim::replication::anti_entropy::SyncResponse>,
+    now: u64,
+}
+
+const NODE: [&str; 3] = ["a", "b", "c"];
+
+fn set_str(s: &std::collections::HashSet<ReplicaId>) -> String {
+    let mut v: Vec<u64> = s.iter().map(|r| r.0).collect();
+    v.sort();
+    v.iter().map(|x| x.to_string()).collect::<Vec<_>>().join(",")
+}
+
+impl Sess {
+    fn send_state(&self, out: &mut Out, n: usize) {
+        op_state(out, NODE[n], self.depth[n], &self.sts[n].replicated_keys);
+    }
+    fn dig(&mut self, out: &mut Out, id: u64, n: usize) {
+        self.send_state(out, n);
+        let d = self.mgrs[n].generate_digest(&self.sts[n].replicated_keys);
+        out.op(format!("MDIG {} {}", id, NODE[n]), format!("dg rid={} gen={} root={} count={} nb={}", d.replica_id.0, d.generation, d.root_hash, d.key_count, d.buckets.len()));
+        self.digs.insert(id, d);
+    }
+    fn proc(&mut self, out: &mut Out, n: usize, id: u64) {
+        let Some(pd) = self.digs.get(&id).cloned() else { return };
+        self.send_state(out, n);
+        let ours = self.mgrs[n].generate_digest(&self.sts[n].replicated_keys);
+        let differs = ours.differs_from(&pd);
+        let peer = pd.replica_id;
+        let v = self.mgrs[n].process_peer_digest(pd, &ours);
+        let vs = match &v { None => "none".to_string(), Some(l) => format!("div={}", l.iter().map(|x| x.to_string()).collect::<Vec<_>>().join(",")) };
+        out.op(format!("MPROC {} {}", NODE[n], id), format!("proc {} dp={}", vs, set_str(&self.mgrs[n].divergent_peers)));
+        if v.is_some() != differs || self.mgrs[n].divergent_peers.contains(&peer) != differs || !self.mgrs[n].peer_digests.contains_key(&peer) {
+            out.violation("C18:session:process-peer-digest", "process_peer_digest: verdict / divergent_peers / peer_digests do not follow differs_from",
+                json!({"node": NODE[n], "peer": peer.0, "differs": differs, "verdict": vs}));
+        }
+        self.verdicts.insert(n, v);
+    }
+    fn req(&mut self, out: &mut Out, id: u64, n: usize, peer: usize, full: bool) {
+        self.send_state(out, n);
+        self.now += 7;
+        let ours = self.mgrs[n].generate_digest(&self.sts[n].replicated_keys);
+        let buckets = if full { None } else { self.verdicts.get(&n).cloned().unwrap_or(None) };
+        let pid = self.mgrs[peer].replica_id;
+        let rq = self.mgrs[n].create_sync_request(pid, ours, buckets, self.now);
+        let bs = match &rq.requested_buckets { None => "none".to_string(), Some(l) => l.iter().map(|x| x.to_string()).collect::<Vec<_>>().join(",") };
+        out.op(format!("MREQ {} {} {} {} {}", id, NODE[n], pid.0, full as u8, self.now),
+            format!("req from={} to={} buckets={} root={} gen={}", rq.from_replica.0, rq.to_replica.0, bs, rq.digest.root_hash, rq.digest.generation));
+        self.reqs.insert(id, rq);
+    }
+    fn handle(&mut self, out: &mut Out, rid: u64, n: usize, qid: u64) {
+        let Some(rq) = self.reqs.get(&qid).cloned() else { return };
+        self.send_state(out, n);
+        let requested = rq.requested_buckets.clone();
+        let rs = self.mgrs[n].handle_sync_request(rq, &self.sts[n].replicated_keys);
+        out.op(format!("MHANDLE {} {} {}", rid, NODE[n], qid),
+            format!("resp from={} keys={} root={} dp={}", rs.from_replica.0, rs.deltas.iter().map(|d| hex(d.key.as_bytes())).collect::<Vec<_>>().join(","), rs.digest.root_hash, set_str(&self.mgrs[n].divergent_peers)));
+        // oracle: the answer comes from the responder's CURRENT state, inside the request, within the limit
+        let cur = &self.sts[n].replicated_keys;
+        let limit = self.mgrs[n].config.max_keys_per_sync.max(1);
+        let depth = self.depth[n];
+        let in_req = |k: &String| match &requested { None => true, Some(b) => cur.get(k).map(|v| b.contains(&KeyDigest::new(k, v).bucket(depth))).unwrap_or(false) };
+        let pop = cur.keys().filter(|k| in_req(k)).count();
+        let bad = rs.deltas.iter().any(|d| cur.get(&d.key).map(MRv::from_real) != Some(MRv::from_real(&d.value)) || !in_req(&d.key) || d.source_replica != self.mgrs[n].replica_id)
+            || rs.deltas.len() != limit.min(pop)
+            || rs.deltas.iter().map(|d| &d.key).collect::<BTreeSet<_>>().len() != rs.deltas.len();
+        if bad {
+            out.violation("C18:session:response", "handle_sync_request: the answer is not min(limit, population) distinct entries of the responder's CURRENT state inside the requested buckets",
+                json!({"responder": NODE[n], "requested_buckets": requested, "answered": rs.deltas.iter().map(|d| d.key.clone()).collect::<Vec<_>>(), "population": pop, "limit": limit, "state": show_state("s", cur)}));
+        }
+        self.resps.insert(rid, rs);
+    }
+    fn apply(&mut self, out: &mut Out, n: usize, rid: u64, what: &str) {
+        let Some(rs) = self.resps.get(&rid).cloned() else { return };
+        self.send_state(out, n);
+        let pre = self.sts[n].replicated_keys.clone();
+        let mut want = pre.clone();
+        for d in &rs.deltas {
+            let v = match want.get(&d.key) { Some(x) => x.merge(&d.value), None => d.value.clone() };
+            want.insert(d.key.clone(), v);
+        }
+        for d in rs.deltas.clone() {
+            self.sts[n].apply_remote_delta(d);
+        }
+        out.op(format!("MAPPLY {} {}", NODE[n], rid), show_state("s", &self.sts[n].replicated_keys));
+        invalidate(NODE[n]);
+        out.count(&format!("session:apply:{}", what));
+        if canon(&want) != canon(&self.sts[n].replicated_keys) {
+            out.violation("C18:session:not-merged", &format!("merging a response ({}) did not leave merge(current own, answered) on every answered key and everything else untouched", what),
+                json!({"node": NODE[n], "what": what, "before": show_state("s", &pre), "answered": rs.deltas.iter().map(|d| (d.key.clone(), MRv::from_real(&d.value).show())).collect::<Vec<_>>(), "after": show_state("s", &self.sts[n].replicated_keys)}));
+        }
+    }
+    fn write(&mut self, out: &mut Out, rng: &mut Rng, n: usize, pool: &[ReplicatedValue]) {
+        // a local write between two protocol steps: a new key, a newer value, or a delete
+        let st = &mut self.sts[n].replicated_keys;
+        let k = if st.is_empty() || rng.chance(1, 3) { format!("w{}", rng.below(6)) } else { st.keys().nth(rng.below(st.len() as u64) as usize).unwrap().clone() };
+        let v = gen_value(rng, pool);
+        let nv = match st.get(&k) { Some(old) => old.merge(&v), None => v };
+        st.insert(k, nv);
+        self.mgrs[n].on_local_write();
+        out.op(format!("MWRITE {}", NODE[n]), format!("gen={}", self.mgrs[n].generation));
+        out.count("session:local-write-between-steps");
+    }
+    fn bookkeeping(&mut self, out: &mut Out, rng: &mut Rng, n: usize) {
+        let peer = self.mgrs[rng.below(3) as usize].replica_id;
+        if rng.chance(1, 4) {
+            // a request to a peer that was never found divergent: last_sync_time gets an entry for a peer
+            // that peers_needing_sync lists only when it is DUE
+            let p = rng.below(3) as usize;
+            if p != n {
+                self.req(out, 900 + n as u64, n, p, true);
+                out.count("session:request-to-a-non-divergent-peer");
+            }
+            return;
+        }
+        match rng.below(3) {
+            0 => {
+                // just below / at / just above `last + sync_interval_ms`, computed from the manager's real table
+                let last = self.mgrs[n].last_sync_time.get(&peer).cloned();
+                let interval = self.mgrs[n].config.sync_interval_ms;
+                let now = match (last, rng.below(6)) {
+                    (Some(t), 0) => t.saturating_add(interval).saturating_sub(1),
+                    (Some(t), 1) => t.saturating_add(interval),
+                    (Some(t), 2) => t.saturating_add(interval).saturating_add(1),
+                    (Some(t), 3) => t,
+                    (_, 4) => self.now.saturating_sub(rng.range(1, 50)),
+                    _ => self.now + rng.range(0, 120),
+                };
+                out.count(if last.is_some() { "session:should_sync:peer-synced-before" } else { "session:should_sync:never-synced" });
+                let m = &self.mgrs[n];
+                let prev = std::panic::take_hook();
+                std::panic::set_hook(Box::new(|_| {}));
+                let r = std::panic::catch_unwind(std::panic::AssertUnwindSafe(|| m.should_sync(peer, now)));
+                std::panic::set_hook(prev);
+                out.op(format!("MDUE {} {} {}", NODE[n], peer.0, now), format!("due={}", match r { Ok(true) => "yes", Ok(false) => "no", Err(_) => "underflow" }));
+                out.count(match r { Ok(_) => "session:should_sync", Err(_) => "session:should_sync:clock-went-backwards" });
+            }
+            1 => {
+                self.mgrs[n].on_partition_healed(peer);
+                out.op(format!("MHEAL {} {}", NODE[n], peer.0), format!("dp={}", set_str(&self.mgrs[n].divergent_peers)));
+            }
+            _ => {
+                // at the boundary of the oldest / newest entry of last_sync_time
+                let interval = self.mgrs[n].config.sync_interval_ms;
+                let lasts: Vec<u64> = self.mgrs[n].last_sync_time.values().cloned().collect();
+                let now = match (lasts.iter().max(), rng.below(5)) {
+                    (Some(t), 0) => t.saturating_add(interval).saturating_sub(1),
+                    (Some(t), 1) => t.saturating_add(interval),
+                    (Some(t), 2) => t.saturating_add(interval).saturating_add(1),
+                    (Some(t), 3) => *t,
+                    _ => self.now + rng.range(0, 120),
+                };
+                let m = &self.mgrs[n];
+                let prev = std::panic::take_hook();
+                std::panic::set_hook(Box::new(|_| {}));
+                let r = std::panic::catch_unwind(std::panic::AssertUnwindSafe(|| m.peers_needing_sync(now)));
+                std::panic::set_hook(prev);
+                let a = match r {
+                    Ok(l) => {
+                        let mut v: Vec<u64> = l.iter().map(|r| r.0).collect();
+                        let distinct: BTreeSet<u64> = v.iter().cloned().collect();
+                        if distinct.len() != v.len() {
+                            out.violation("C18:session:peers-needing-sync:duplicate", "peers_needing_sync lists a peer twice", json!({"peers": v}));
+                        }
+                        v.sort();
+                        format!("need {}", v.iter().map(|x| x.to_string()).collect::<Vec<_>>().join(","))
+                    }
+                    Err(_) => "need underflow".to_string(),
+                };
+                out.op(format!("MNEED {} {}", NODE[n], now), a);
+            }
+        }
+        // the never-produced queues stay empty
+        if !self.mgrs[n].drain_requests().is_empty() || !self.mgrs[n].drain_responses().is_empty() {
+            out.violation("C18:session:pending-queues", "pending_requests / pending_responses are not empty although nothing produces them", json!({}));
+        }
+    }
+}
+
+#[derive(Clone, Debug)]
+enum Step {
+    Dig(u64, usize),
+    Proc(usize, u64),
+    Req(u64, usize, usize, bool),
+    Handle(u64, usize, u64),
+    Apply(usize, u64, &'static str),
+    Write(usize),
+    Book(usize),
+}
+
+/// one pull r <- p as a flow of message steps, with optional local writes in every gap, an
+/// optional duplicate / misdelivered application
+fn flow(rng: &mut Rng, base: u64, r: usize, p: usize, full: bool) -> Vec<Step> {
+    let mut v = vec![Step::Dig(base, p)];
+    let gap = |rng: &mut Rng, v: &mut Vec<Step>| {
+        if rng.chance(1, 3) {
+            v.push(Step::Write(rng.below(3) as usize));
+        }
+        if rng.chance(1, 5) {
+            v.push(Step::Book(rng.below(3) as usize));
+        }
+    };
+    gap(rng, &mut v);
+    v.push(Step::Proc(r, base));
+    gap(rng, &mut v);
+    v.push(Step::Req(base, r, p, full));
+    gap(rng, &mut v);
+    v.push(Step::Handle(base, p, base));
+    gap(rng, &mut v);
+    v.push(Step::Apply(r, base, "in-order"));
+    if rng.chance(1, 3) {
+        gap(rng, &mut v);
+        v.push(Step::Apply(r, base, "duplicate"));
+    }
+    if rng.chance(1, 6) {
+        v.push(Step::Apply(3 - r - p, base, "third-node")); // the response reaches the node it was not meant for
+    }
+    if rng.chance(1, 6) {
+        v.push(Step::Handle(base + 1, p, base)); // the request is answered a second time, later
+        v.push(Step::Apply(r, base + 1, "late-second-answer"));
+    }
+    v
+}
+
+fn session_ops(out: &mut Out, rng: &mut Rng, contents: [Vec<(String, ReplicatedValue)>; 3], depths: [usize; 3], limit: usize, pool: &[ReplicatedValue], src: &str) {
+    op_reset(out);
+    let interval = *rng.pick(&[0u64, 10, 100, u64::MAX]);
+    let auto = rng.chance(3, 4);
+    let mut se = Sess { mgrs: vec![], sts: vec![], depth: depths.to_vec(), digs: BTreeMap::new(), verdicts: BTreeMap::new(), reqs: BTreeMap::new(), resps: BTreeMap::new(), now: 1000 };
+    for n in 0..3 {
+        let cfg = AntiEntropyConfig { sync_interval_ms: interval, max_keys_per_sync: limit, merkle_tree_depth: depths[n], auto_sync_on_heal: auto };
+        se.mgrs.push(AntiEntropyManager::new(ReplicaId::new(n as u64 + 1), cfg));
+        let mut st = ShardReplicaState::new(ReplicaId::new(n as u64 + 1), ConsistencyLevel::Eventual);
+        st.replicated_keys = build(&contents[n], rng);
+        se.sts.push(st);
+        out.op(format!("MNEW {} {} {} {} {} {}", NODE[n], n + 1, depths[n], limit, interval, auto as u8), "ok".into());
+        se.send_state(out, n);
+    }
+    out.count(if depths[0] == depths[1] && depths[1] == depths[2] { "session:same-depth" } else { "session:depth-mismatch-between-peers" });
+    // two or three flows, interleaved (each keeps its own order): concurrent syncs with several peers
+    let nflows = rng.range(2, 3) as usize;
+    let mut flows: Vec<Vec<Step>> = (0..nflows).map(|i| {
+        let r = rng.below(3) as usize;
+        let p = (r + 1 + rng.below(2) as usize) % 3;
+        let full = rng.chance(1, 4);
+        flow(rng, 10 * (i as u64 + 1), r, p, full)
+    }).collect();
+    let mut script = Vec::new();
+    while flows.iter().any(|f| !f.is_empty()) {
+        let i = rng.below(flows.len() as u64) as usize;
+        if !flows[i].is_empty() {
+            script.push(flows[i].remove(0));
+        }
+    }
+    for st in script {
+        match st {
+            Step::Dig(id, n) => se.dig(out, id, n),
+            Step::Proc(n, id) => se.proc(out, n, id),
+            Step::Req(id, n, p, full) => se.req(out, id, n, p, full),
+            Step::Handle(rid, n, qid) => se.handle(out, rid, n, qid),
+            Step::Apply(n, rid, what) => se.apply(out, n, rid, what),
+            Step::Write(n) => se.write(out, rng, n, pool),
+            Step::Book(n) => se.bookkeeping(out, rng, n),
+        }
+    }
+    // ---- clean-up: full-state pulls in every direction with an ample limit until nothing changes;
+    // every pair of nodes then holds the same state (tie-consistent well-formed values)
+    for m in se.mgrs.iter_mut() {
+        m.config.max_keys_per_sync = usize::MAX;
+    }
+    let mut id = 1000u64;
+    for _round in 0..4 {
+        let before: Vec<_> = se.sts.iter().map(|s| canon(&s.replicated_keys)).collect();
+        for r in 0..3 {
+            for p in 0..3 {
+                if r != p {
+                    id += 1;
+                    let rq = {
+                        let ours = se.mgrs[r].generate_digest(&se.sts[r].replicated_keys);
+                        let pid = se.mgrs[p].replica_id;
+                        se.mgrs[r].create_sync_request(pid, ours, None, 5000)
+                    };
+                    let rs = { let (m, s) = (&mut se.mgrs[p], &se.sts[p].replicated_keys); m.handle_sync_request(rq, s) };
+                    for d in rs.deltas {
+                        se.sts[r].apply_remote_delta(d);
+                    }
+                }
+            }
+        }
+        if before == se.sts.iter().map(|s| canon(&s.replicated_keys)).collect::<Vec<_>>() {
+            break;
+        }
+    }
+    let _ = id;
+    let all_equal = canon(&se.sts[0].replicated_keys) == canon(&se.sts[1].replicated_keys) && canon(&se.sts[1].replicated_keys) == canon(&se.sts[2].replicated_keys);
+    if all_equal {
+        out.count("session:converged-after-cleanup");
+    } else if undelivered(&se.sts[0].replicated_keys, &se.sts[1].replicated_keys).is_empty() && undelivered(&se.sts[1].replicated_keys, &se.sts[2].replicated_keys).is_empty() && undelivered(&se.sts[0].replicated_keys, &se.sts[2].replicated_keys).is_empty() {
+        out.count("excluded:sync:non-commutative-merge-residue");
+    } else {
+        out.violation("C18:session:not-converged-after-cleanup", "after the session, unlimited full-state pulls in every direction do not bring the three nodes to one state",
+            json!({"a": show_state("a", &se.sts[0].replicated_keys), "b": show_state("b", &se.sts[1].replicated_keys), "c": show_state("c", &se.sts[2].replicated_keys), "source": src}));
+    }
+}
+
+/// `run_full_anti_entropy` over three connected simulator nodes, and `heal_partition` (a sync iff
+/// the pair was partitioned and auto_anti_entropy is on)
+fn sim3_ops(out: &mut Out, rng: &mut Rng, contents: [Vec<(String, ReplicatedValue)>; 3], depth: usize, limit: usize, src: &str) {
+    op_reset(out);
+    let mut sim = MultiNodeSimulation::new(3, 7);
+    for i in 0..3 {
+        sim.nodes[i].anti_entropy.config.merkle_tree_depth = depth;
+        sim.nodes[i].anti_entropy.config.max_keys_per_sync = limit;
+        sim.nodes[i].replica_state.replicated_keys = build(&contents[i], rng);
+        op_state(out, NODE[i], depth, &sim.nodes[i].replica_state.replicated_keys);
+    }
+    // heal_partition first (on a, b)
+    let was = rng.chance(2, 3);
+    let auto = rng.chance(2, 3);
+    sim.auto_anti_entropy = auto;
+    if was {
+        if rng.chance(1, 2) { sim.partition(0, 1) } else { sim.partition(1, 0) }
+    }
+    let pre = (canon(&sim.nodes[0].replica_state.replicated_keys), canon(&sim.nodes[1].replica_state.replicated_keys));
+    let syncs0 = sim.anti_entropy_syncs;
+    if rng.chance(1, 2) { sim.heal_partition(0, 1) } else { sim.heal_partition(1, 0) }
+    invalidate("a");
+    invalidate("b");
+    out.op(format!("HEAL {} {} {}", was as u8, auto as u8, limit),
+        format!("{} | {}", show_state("a", &sim.nodes[0].replica_state.replicated_keys), show_state("b", &sim.nodes[1].replica_state.replicated_keys)));
+    out.count(&format!("sim3:heal:was-partitioned={}:auto={}", was as u8, auto as u8));
+    let changed = pre != (canon(&sim.nodes[0].replica_state.replicated_keys), canon(&sim.nodes[1].replica_state.replicated_keys));
+    if (changed || sim.anti_entropy_syncs != syncs0) && !(was && auto) {
+        out.violation("C18:sim:heal-syncs-unasked", "heal_partition ran an anti-entropy sync although the pair was not partitioned / auto_anti_entropy is off", json!({"was_partitioned": was, "auto": auto, "source": src}));
+    }
+    if !sim.can_communicate(0, 1) {
+        out.violation("C18:sim:heal-leaves-partition", "after heal_partition the two nodes still cannot communicate", json!({"source": src}));
+    }
+    // run_full_anti_entropy: all three pairs
+    for i in 0..3 {
+        op_state(out, NODE[i], depth, &sim.nodes[i].replica_state.replicated_keys);
+    }
+    let pre: Vec<State> = (0..3).map(|i| sim.nodes[i].replica_state.replicated_keys.clone()).collect();
+    sim.run_full_anti_entropy();
+    for n in NODE { invalidate(n); }
+    out.op(format!("SYNC3 {}", limit), (0..3).map(|i| show_state(NODE[i], &sim.nodes[i].replica_state.replicated_keys)).collect::<Vec<_>>().join(" | "));
+    out.count("sim3:run_full_anti_entropy");
+    // oracle: with an ample limit one full pass leaves every key present anywhere on all three
+    // nodes holding the merge of everything (tie-consistent well-formed values)
+    let pop: usize = pre.iter().map(|s| s.len()).max().unwrap_or(0);
+    if limit.max(1) >= 2 * pop + 2 {
+        let keys: BTreeSet<&String> = pre.iter().flat_map(|s| s.keys()).collect();
+        for k in keys {
+            let vals: Vec<MRv> = pre.iter().filter_map(|s| s.get(k)).map(MRv::from_real).collect();
+            // three-way merging needs associativity: claimed by C07 within one CRDT kind only
+            let ok_pair = vals.iter().all(|x| x.wf()) && vals.iter().all(|x| vals.iter().all(|y| x.tie_ok(y) && x.crdt.kind_name() == y.crdt.kind_name()));
+            if !ok_pair {
+                out.count("excluded:sync:tie-inconsistent-or-cross-kind-triple");
+                continue;
+            }
+            // a second pass reaches the fixpoint of three-way merging; after it all nodes must agree
+            let mut sim2_vals: Vec<Option<MRv>> = (0..3).map(|i| sim.nodes[i].replica_state.replicated_keys.get(k).map(MRv::from_real)).collect();
+            sim2_vals.dedup();
+            // (a,b), (a,c), (b,c): after the second pair a and c hold all three values, after the third b too
+            if sim2_vals.len() != 1 {
+                out.violation("C18:sim3:not-merged-after-full-pass", &format!("after run_full_anti_entropy with an ample limit the three nodes hold different values for key {:?}", k),
+                    json!({"key": k, "before": pre.iter().map(|s| s.get(k).map(|v| MRv::from_real(v).show())).collect::<Vec<_>>(),
+                           "after": (0..3).map(|i| sim.nodes[i].replica_state.replicated_keys.get(k).map(|v| MRv::from_real(v).show())).collect::<Vec<_>>(), "limit": limit, "depth": depth, "source": src}));
+            }
+        }
+    }
+}
+
 fn rv_lww(bytes: &[u8], t: u64, r: u64) -> ReplicatedValue {
     MRv { crdt: MCrdt::Lww(crate::enc::MLww { v: Some(bytes.to_vec()), t, r, tomb: false }), vc: None, exp: None, t, r, rf: None }.to_real()
 }
 
+/// a corpus case that needs a particular iteration order is retried with fresh maps; not finding
+/// one in 200 tries is reported, never skipped silently
+fn corpus_built(out: &mut Out, built: bool, what: &str) {
+    out.count(if built { "corpus:case-constructed" } else { "corpus:CASE-NOT-CONSTRUCTED" });
+    if !built {
+        out.violation("C18:harness:corpus-case-not-constructed", &format!("the corpus case `{}` could not be constructed in 200 tries (HashMap iteration orders): the witness did not run", what), json!({"case": what}));
+    }
+}
+
+/// should_sync / peers_needing_sync exactly at `last request + sync_interval_ms`, one below, one
+/// above — for a peer that is NOT marked divergent (a divergent peer is listed whatever the time)
+fn corpus_bookkeeping(out: &mut Out) {
+    for interval in [0u64, 1, 10, 1000] {
+        op_reset(out);
+        let mut se = Sess { mgrs: vec![], sts: vec![], depth: vec![1; 3], digs: BTreeMap::new(), verdicts: BTreeMap::new(), reqs: BTreeMap::new(), resps: BTreeMap::new(), now: 5000 };
+        for n in 0..3 {
+            let cfg = AntiEntropyConfig { sync_interval_ms: interval, max_keys_per_sync: 10, merkle_tree_depth: 1, auto_sync_on_heal: n != 2 };
+            se.mgrs.push(AntiEntropyManager::new(ReplicaId::new(n as u64 + 1), cfg));
+            se.sts.push(ShardReplicaState::new(ReplicaId::new(n as u64 + 1), ConsistencyLevel::Eventual));
+            out.op(format!("MNEW {} {} 1 10 {} {}", NODE[n], n + 1, interval, (n != 2) as u8), "ok".into());
+            se.send_state(out, n);
+        }
+        se.req(out, 1, 0, 1, true); // a -> b at now = 5007
+        let t0 = se.now;
+        for now in [t0.saturating_add(interval).saturating_sub(1).max(t0), t0.saturating_add(interval), t0.saturating_add(interval).saturating_add(1), t0] {
+            let due = se.mgrs[0].should_sync(ReplicaId::new(2), now);
+            out.op(format!("MDUE a 2 {}", now), format!("due={}", if due { "yes" } else { "no" }));
+            let mut v: Vec<u64> = se.mgrs[0].peers_needing_sync(now).iter().map(|r| r.0).collect();
+            v.sort();
+            out.op(format!("MNEED a {}", now), format!("need {}", v.iter().map(|x| x.to_string()).collect::<Vec<_>>().join(",")));
+            let want = now - t0 >= interval;
+            if due != want || v.contains(&2) != want {
+                out.violation("C18:sync:should-sync", &format!("sync_interval_ms = {}, last request at {}, now {}: should_sync = {}, peers_needing_sync = {:?}; a sync is due iff now - last >= interval", interval, t0, now, due, v),
+                    json!({"sync_interval_ms": interval, "last": t0, "now": now}));
+            }
+            out.count("bookkeeping:interval-boundary");
+        }
+        // partition heal: marks the peer divergent and forgets the last request (auto_sync_on_heal), or nothing
+        for n in [0usize, 2] {
+            se.mgrs[n].on_partition_healed(ReplicaId::new(2));
+            out.op(format!("MHEAL {} 2", NODE[n]), format!("dp={}", set_str(&se.mgrs[n].divergent_peers)));
+            let due = se.mgrs[n].should_sync(ReplicaId::new(2), t0);
+            out.op(format!("MDUE {} 2 {}", NODE[n], t0), format!("due={}", if due { "yes" } else { "no" }));
+        }
+    }
+}
+
 /// fixed witnesses, run first on every run (known findings must reproduce)
 fn corpus(out: &mut Out, rng: &mut Rng, thorough: bool) {
+    op_sip(out, rng, 60);
+    corpus_bookkeeping(out);
     // (1) DESIGN.md §6.1: the same 40 entries inserted in two orders, depth 2
     let content: Vec<(String, ReplicatedValue)> = (0..40).map(|i| (format!("key{}", i), rv_lww(format!("v{}", i).as_bytes(), i as u64 + 1, 1))).collect();
     let p = Pair { a: build(&content, rng), b: build(&content, rng), depth: 2 };
@@ -725,6 +1278,7 @@ fn corpus(out: &mut Out, rng: &mut Rng, thorough: bool) {
     // (3) limit starvation: one bucket, 6 keys, one divergent key, limit 1; fresh maps until the
     // divergent key is not the first key of either iteration order
     let mut content: Vec<(String, ReplicatedValue)> = (0..6).map(|i| (format!("s{}", i), rv_lww(b"same", 1, 1))).collect();
+    let mut built = false;
     for _ in 0..200 {
         let a = build(&content, rng);
         content[3].1 = rv_lww(b"newer", 9, 2);
@@ -732,11 +1286,14 @@ fn corpus(out: &mut Out, rng: &mut Rng, thorough: bool) {
         content[3].1 = rv_lww(b"same", 1, 1);
         if a.keys().next().map(|k| k != "s3").unwrap_or(false) && b.keys().next().map(|k| k != "s3").unwrap_or(false) {
             sync_ops(out, Pair { a, b, depth: 0 }, 1, 4, "corpus: 6 keys in one bucket, key s3 divergent, limit 1");
+            built = true;
             break;
         }
     }
+    corpus_built(out, built, "limit starvation, simulator path");
     // the same through the message protocol: bucket request and full-state request
     for full in [false, true] {
+        let mut built = false;
         for _ in 0..200 {
             let a = build(&content, rng);
             content[3].1 = rv_lww(b"newer", 9, 2);
@@ -744,9 +1301,11 @@ fn corpus(out: &mut Out, rng: &mut Rng, thorough: bool) {
             content[3].1 = rv_lww(b"same", 1, 1);
             if a.keys().next().map(|k| k != "s3").unwrap_or(false) && b.keys().next().map(|k| k != "s3").unwrap_or(false) {
                 msg_ops(out, Pair { a, b, depth: 0 }, 1, full, 4, "corpus: message protocol, 6 keys in one bucket, key s3 divergent, limit 1");
+                built = true;
                 break;
             }
         }
+        corpus_built(out, built, if full { "limit starvation, full-state request" } else { "limit starvation, bucket request" });
     }
     // (4) a responder with MORE keys than the limit, few of them requested: 12 keys, depth 2,
     // limit 4, the (at most 4, here 3) keys of one bucket are newer on b.  The limit must apply
@@ -772,6 +1331,7 @@ fn corpus(out: &mut Out, rng: &mut Rng, thorough: bool) {
     for i in &chosen {
         newer[*i].1 = rv_lww(b"new", 7, 2);
     }
+    let mut built = false;
     for _ in 0..200 {
         let (a, b) = (build(&base, rng), build(&newer, rng));
         let late = b.keys().enumerate().any(|(pos, k)| pos >= 4 && chosen.iter().any(|i| names[*i] == *k));
@@ -779,9 +1339,11 @@ fn corpus(out: &mut Out, rng: &mut Rng, thorough: bool) {
             let p = Pair { a, b, depth: 2 };
             digest_ops(out, rng, &p, "corpus: 12 keys, depth 2, one bucket newer on b");
             msg_ops(out, p, 4, false, 3, "corpus: message protocol, 12 keys > limit 4, <= 4 requested keys, one of them iterates after position 4");
+            built = true;
             break;
         }
     }
+    corpus_built(out, built, "responder with more keys than the limit, few requested");
     // (5) configuration extremes.  merkle_tree_depth = 18 (2^18 buckets), the scenario of the
     // round-4 seed: a holds a:0..63, b holds b:0..63, both hold `shared` (newer on b); far fewer keys
     // than the limit: one exchange must merge everything, on the simulator path and on the message
@@ -814,7 +1376,7 @@ fn corpus(out: &mut Out, rng: &mut Rng, thorough: bool) {
     // range?  (depths 59..63: more than isize::MAX bytes -> "capacity overflow" panic, no allocation
     // is attempted; 64 / 65: the shift wraps in release builds.  Depths ~30..58 would really try to
     // allocate 24 * 2^depth bytes and abort the process: not executed.)
-    for d in [59usize, 63, 64, 65, 1000, usize::MAX] {
+    for d in [19usize, 20, 21, 22, 59, 63, 64, 65, 1000, usize::MAX] {
         let empty: State = HashMap::new();
         let prev = std::panic::take_hook();
         std::panic::set_hook(Box::new(|_| {}));
@@ -832,6 +1394,36 @@ fn corpus(out: &mut Out, rng: &mut Rng, thorough: bool) {
             out.violation("C18:config:merkle_tree_depth:digest-panics",
                 &format!("AntiEntropyConfig {{ merkle_tree_depth: {} }} is accepted, and generate_digest / StateDigest::from_state then panics ({}): a legal configuration crashes every digest computation", d, ans),
                 json!({"merkle_tree_depth": d, "call": "StateDigest::from_state(&{}, r1, 0, depth)", "observed": ans, "expected": "a digest, or a rejected configuration"}));
+        }
+    }
+    // the key filters at the boundary of MAX_MERKLE_TREE_DEPTH: the bucket of a key for depth 20, 21, 22, … is
+    // the same and lies inside the digest of that depth
+    {
+        let nb: Vec<usize> = [19usize, 20, 21, 22, 64, usize::MAX].iter().map(|d| {
+            let prev = std::panic::take_hook();
+            std::panic::set_hook(Box::new(|_| {}));
+            let r = std::panic::catch_unwind(|| StateDigest::from_state(&HashMap::new(), ReplicaId::new(1), 0, *d).buckets.len()).unwrap_or(0);
+            std::panic::set_hook(prev);
+            r
+        }).collect();
+        for i in 0..40 {
+            let k = format!("edge{}", i);
+            let v = rv_lww(b"x", 1, 1);
+            let kd = KeyDigest::new(&k, &v);
+            let prev = std::panic::take_hook();
+            std::panic::set_hook(Box::new(|_| {}));
+            let bs = std::panic::catch_unwind(|| [kd.bucket(19), kd.bucket(20), kd.bucket(21), kd.bucket(22), kd.bucket(64), kd.bucket(usize::MAX)]);
+            std::panic::set_hook(prev);
+            out.count("depth-bound:filter-vs-digest-at-the-boundary");
+            match bs {
+                Ok(bs) => {
+                    if (0..6).any(|j| nb[j] != 0 && bs[j] >= nb[j]) || bs[1] != bs[2] || bs[2] != bs[3] {
+                        out.violation("C18:bucket-function-mismatch", &format!("KeyDigest::bucket at depths 19/20/21/22/64/max = {:?}, digests of those depths have {:?} buckets: filter and digest disagree at the depth bound", bs, nb),
+                            json!({"key": k, "buckets": bs, "digest_sizes": nb}));
+                    }
+                }
+                Err(_) => out.violation("C18:config:merkle_tree_depth:digest-panics", "KeyDigest::bucket panics at an extreme depth", json!({"key": k})),
+            }
         }
     }
     // … and a digest-driven exchange at those depths (real code only: whatever depth is configured,
@@ -958,7 +1550,7 @@ fn scenario(out: &mut Out, rng: &mut Rng, idx: u64) {
             2 => {
                 other.remove(i);
             }
-            4 => other[i].1 = MRv { exp: Some(m.exp.unwrap_or(0) + 1000), ..m }.to_real(),
+            4 => other[i].1 = MRv { exp: Some(m.exp.unwrap_or(0).wrapping_add(1000)), ..m }.to_real(),
             5 => {
                 let mut x = random_value(rng);
                 x.t = m.t;
@@ -967,11 +1559,12 @@ fn scenario(out: &mut Out, rng: &mut Rng, idx: u64) {
             }
             6 => {
                 let mut vc = m.vc.clone().unwrap_or_default();
-                *vc.entry(rng.range(1, 3)).or_insert(0) += 1;
+                let e = vc.entry(rng.range(1, 3)).or_insert(0);
+                *e = e.wrapping_add(1);
                 other[i].1 = MRv { vc: Some(vc), ..m }.to_real();
             }
-            7 => other[i].1 = MRv { rf: Some(m.rf.unwrap_or(1) + 1), ..m }.to_real(),
-            _ => other[i].1 = MRv { r: m.r + 1, ..m }.to_real(),
+            7 => other[i].1 = MRv { rf: Some(m.rf.unwrap_or(1).wrapping_add(1)), ..m }.to_real(),
+            _ => other[i].1 = MRv { r: m.r.wrapping_add(1), ..m }.to_real(),
         }
     }
     // keys are unique per state
@@ -997,6 +1590,86 @@ fn scenario(out: &mut Out, rng: &mut Rng, idx: u64) {
         let p = Pair { a: build(&content, rng), b: build(&content, rng), depth };
         msg_ops(out, p, *rng.pick(&[1usize, 5, 1000]), rng.chance(1, 2), 2, &format!("case {}: equal states, message protocol", idx));
     }
+    // (iv) the protocol as a state machine between THREE managers: interleaved pulls, messages
+    // processed late / twice / by the wrong node, local writes between any two steps
+    if rng.chance(1, 5) && !deep {
+        let mut third = content.clone();
+        if !third.is_empty() {
+            let i = rng.below(third.len() as u64) as usize;
+            third[i].1 = gen_value(rng, &pool);
+        }
+        third.push((format!("c{}", rng.below(9)), gen_value(rng, &pool)));
+        let mut seen = BTreeSet::new();
+        third.retain(|(k, _)| seen.insert(k.clone()));
+        let limit = *rng.pick(&[1usize, 2, 5, 1000, 1000]);
+        let depths = if rng.chance(1, 8) { [depth, (depth + 1) % 4, depth] } else { [depth; 3] };
+        session_ops(out, rng, [content.clone(), other.clone(), third.clone()], depths, limit, &pool, &format!("case {}: three-node session", idx));
+        if rng.chance(1, 2) {
+            let l3 = *rng.pick(&[1usize, 3, 1000, 1000]);
+            sim3_ops(out, rng, [content.clone(), other.clone(), third], depth, l3, &format!("case {}: three simulator nodes", idx));
+        }
+    }
+}
+
+/// every public item of the anchored anti-entropy code (scanned from the source this binary was
+/// built against) and how this harness accounts for it
+fn coverage(file: &str, item: &str) -> Option<&'static str> {
+    let f = file.rsplit('/').next().unwrap_or(file);
+    Some(match (f, item) {
+        ("anti_entropy.rs", "AntiEntropyConfig.sync_interval_ms") => "driven: should_sync probes (0 / 1 / 1000 / u64::MAX), sessions (0 / 10 / 100 / u64::MAX; MDUE / MNEED incl. a clock that went backwards)",
+        ("anti_entropy.rs", "AntiEntropyConfig.max_keys_per_sync" | "AntiEntropyConfig::keys_per_sync") => "driven: 0, 1, 2, 5, population/2+1, population, population+…, 1000, usize::MAX on all three paths (G / SYNC / PULL / MHANDLE)",
+        ("anti_entropy.rs", "AntiEntropyConfig.merkle_tree_depth" | "const MAX_MERKLE_TREE_DEPTH") => "driven: 0-3, 8, 15-18 (thorough 17, 20, 21), ALLOC 19..22 / 59 / 63 / 64 / 65 / 1000 / usize::MAX, key-filter boundary probe 19..22, DIFFERENT depths on the two sides (sessions)",
+        ("anti_entropy.rs", "AntiEntropyConfig.auto_sync_on_heal") => "driven: sessions (MHEAL with both values)",
+        ("anti_entropy.rs", "KeyDigest.key_hash" | "KeyDigest.value_hash" | "KeyDigest.timestamp" | "KeyDigest::new" | "KeyDigest::bucket") => "driven: every S line (both hashes recomputed by the model from the bytes: conflicts=0), bucket via D / G / PULL and the bucket-function oracle",
+        ("anti_entropy.rs", "MerkleNode.hash" | "MerkleNode.count" | "MerkleNode.max_timestamp" | "MerkleNode::empty" | "MerkleNode::from_digests" | "MerkleNode::combine") => "driven: D (every non-empty bucket node and the root recomputed by the model), W (word streams)",
+        ("anti_entropy.rs", "StateDigest.root_hash" | "StateDigest.key_count" | "StateDigest.max_timestamp" | "StateDigest.buckets" | "StateDigest::from_state" | "StateDigest::differs_from" | "StateDigest::divergent_buckets") => "driven: D / CMP (same and different depths), ALLOC",
+        ("anti_entropy.rs", "StateDigest.replica_id" | "StateDigest.generation") => "driven: MDIG / MREQ (rid= gen=), process_peer_digest keys its bookkeeping by replica_id",
+        ("anti_entropy.rs", "SyncRequest.from_replica" | "SyncRequest.to_replica" | "SyncRequest.digest" | "SyncRequest.requested_buckets") => "driven: MREQ (all four fields compared), PULL envelope oracle",
+        ("anti_entropy.rs", "SyncResponse.from_replica" | "SyncResponse.deltas" | "SyncResponse.digest") => "driven: MHANDLE (from, keys in answer order, digest root), MAPPLY, PULL",
+        ("anti_entropy.rs", "AntiEntropyManager.config" | "AntiEntropyManager.replica_id" | "AntiEntropyManager.generation" | "AntiEntropyManager.peer_digests" | "AntiEntropyManager.divergent_peers" | "AntiEntropyManager.last_sync_time") => "driven: sessions (gen= / dp= / due= / need answers), process-peer-digest oracle",
+        ("anti_entropy.rs", "AntiEntropyManager.pending_requests" | "AntiEntropyManager.pending_responses" | "AntiEntropyManager::drain_requests" | "AntiEntropyManager::drain_responses") => "driven: sessions check that they stay empty (nothing in src/ pushes to them)",
+        ("anti_entropy.rs", "AntiEntropyManager::new" | "AntiEntropyManager::on_local_write" | "AntiEntropyManager::generate_digest" | "AntiEntropyManager::should_sync" | "AntiEntropyManager::process_peer_digest" | "AntiEntropyManager::create_sync_request" | "AntiEntropyManager::handle_sync_request" | "AntiEntropyManager::on_partition_healed" | "AntiEntropyManager::peers_needing_sync") => "driven: MNEW / MWRITE / MDIG / MDUE / MPROC / MREQ / MHANDLE / MHEAL / MNEED (three managers, interleaved flows), PULL",
+        ("anti_entropy.rs", "AntiEntropyManager::get_keys_in_buckets") => "driven: G, SYNC / SYNC3 / HEAL",
+        ("anti_entropy.rs", "AntiEntropyMessage::DigestExchange" | "AntiEntropyMessage::SyncRequest" | "AntiEntropyMessage::SyncResponse") => "NOT driven: an envelope enum that nothing in src/ constructs or matches; its three payloads are the digest / request / response registers of the sessions",
+        ("multi_node.rs", "SimulatedNode::generate_digest" | "MultiNodeSimulation::run_anti_entropy_sync" | "MultiNodeSimulation::run_full_anti_entropy" | "MultiNodeSimulation::heal_partition" | "MultiNodeSimulation::partition" | "MultiNodeSimulation::can_communicate" | "SimulatedNode::apply_remote_deltas" | "MultiNodeSimulation::new") => "driven: SYNC (two nodes, 1-5 rounds), SYNC3 (three nodes, all pairs), HEAL (was partitioned × auto_anti_entropy)",
+        ("multi_node.rs", _) => "not part of C18: the rest of the simulator (gossip rounds, clients, linearizability checker) is C06 / C20's subject",
+        _ => return None,
+    })
+}
+
+/// the coverage audit of C18 against the eleven classes of missed inputs (also DESIGN §4 C18 "coverage audit")
+fn audit() -> serde_json::Value {
+    json!([
+      {"class": 1, "topic": "entry paths / variants never driven",
+       "covered": "every public item of anti_entropy.rs and the anti-entropy fns of multi_node.rs is SCANNED FROM THE SOURCE the binary was built against and mapped to the op that drives it (113 items; an unaccounted item is C18:coverage:<file>:<item>-not-driven, a failed scan C18:coverage:source-scan-failed); three paths of a sync: simulator shortcut (SYNC, SYNC3 = run_full_anti_entropy over three nodes, HEAL = heal_partition × auto_anti_entropy), message protocol as pulls (PULL, bucket and full-state request) and as a STATE MACHINE between three managers (MNEW / MDIG / MPROC / MREQ / MHANDLE / MAPPLY / MWRITE / MDUE / MHEAL / MNEED)",
+       "open": "AntiEntropyMessage (an envelope enum nothing constructs or matches); pending_requests / pending_responses have no producer (checked to stay empty)"},
+      {"class": 2, "topic": "input alphabet",
+       "covered": "values: plain SET / DEL values from real replicas, structured random values of all six CRDT kinds, values reachable by ops + delta delivery, and EXTREMES of every field (u64::MAX / 2^63 / 2^32 stamps, counts, sequences, expiry; rf 0 / 255; empty, binary (0x00, 0xff, all 256 bytes), 4 KiB payloads; empty / 100-byte / multi-byte / prefix-of-each-other strings as set elements, OR-set elements and hash fields; Some(empty map) vs None; Some(empty bytes) vs None); keys: empty, 120 bytes, multi-byte, prefixes of each other; EVERY value's byte stream is recomputed by the model and its SipHash compared (conflicts=0), raw SIP lines of every length 0..40 and random longer ones",
+       "open": "non-UTF-8 keys / element names cannot exist (Rust String); Lamport times stay below u64::MAX (the clock's own overflow is C08's subject)"},
+      {"class": 3, "topic": "comparisons at equality",
+       "covered": "max_keys_per_sync below / at / above the responder's population on all three paths (counted: population<limit, =limit, >limit); sync_interval_ms: now = last + interval − 1 / + 0 / + 1 for a peer that is NOT divergent (corpus_bookkeeping, intervals 0 / 1 / 10 / 1000) and from the manager's real table in the sessions; MAX_MERKLE_TREE_DEPTH: ALLOC 19 / 20 / 21 / 22, KeyDigest::bucket at 19 / 20 / 21 / 22 / 64 / usize::MAX vs the digest size; bucket sort `len > 1` (buckets of exactly 1, 2, 3 keys); count == 0 of combine / of the size-mismatch branch (depth mismatch sessions)",
+       "open": ""},
+      {"class": 4, "topic": "configuration",
+       "covered": "all four AntiEntropyConfig fields are generated: merkle_tree_depth 0-3, 8, 15-18 (thorough 17, 20, 21) and the allocation probes up to usize::MAX, DIFFERENT depths on the two sides; max_keys_per_sync 0, 1, 2, 5, 16, population-derived, 1000, usize::MAX; sync_interval_ms 0, 1, 10, 100, 1000, u64::MAX; auto_sync_on_heal both",
+       "open": "depths 30..58 are never configured (code without the depth bound would really allocate 24 * 2^depth bytes)"},
+      {"class": 5, "topic": "capacity thresholds", "covered": "the per-round key limit is the only internal limit: crossed on every path; 2^18 buckets in the corpus", "open": ""},
+      {"class": 6, "topic": "fault kinds",
+       "covered": "panics: digest allocation at extreme depths (fixed: c51a674), u64 underflow of should_sync / peers_needing_sync when the clock went backwards (MDUE / MNEED: `underflow`, modelled as AE.Due.underflow — a wrap-around to `due` in a build without overflow checks); any other panic inside a generated case is caught per scenario and reported as C18:panic:<location>",
+       "open": "no I/O in scope"},
+      {"class": 7, "topic": "history shapes",
+       "covered": "1-5 rounds of each path; a state that changes between digest and transfer (local writes in every gap of a flow); answers applied late, twice, by a third node, a request answered a second time later; two or three interleaved pulls with different peers; three-node full passes; equal states / mutated copies / key-set differences; final clean-up to convergence",
+       "open": ""},
+      {"class": 8, "topic": "node-global state", "covered": "the manager's bookkeeping (generation, peer_digests, divergent_peers, last_sync_time) is part of the model state and of every session answer", "open": "the Lamport clock / executor write-through of apply_remote_deltas (C08 / C06)"},
+      {"class": 9, "topic": "observations",
+       "covered": "digest: root, count, max timestamp, bucket count, every non-empty bucket node; key hash and value hash of every entry; divergent buckets; the ANSWER ORDER of every response; request (from, to, buckets, digest root, generation), response (from, keys, digest root), divergent_peers after every step, should_sync / peers_needing_sync, generation; full state dumps after every merge",
+       "open": "peer_digests is observed as 'contains the peer' only (its digest equals the processed message by construction)"},
+      {"class": 10, "topic": "finding signatures",
+       "covered": "the three starvation findings are keyed by path AND condition (limit.max(1) < population, a quiescent exchange, deliverable differences left); absorption audit: a short answer (take(limit − 1)) is C18:sync:*:response-incomplete / quiescent-not-converged, not a starvation finding",
+       "open": ""},
+      {"class": 11, "topic": "harness fragility",
+       "covered": "corpus cases that need a particular HashMap iteration order are retried 200 times and a failure to construct one is C18:harness:corpus-case-not-constructed (was: silently skipped); a panic inside a scenario is a reported case (was: a dead harness); the source scan reads the tree named by harness/Cargo.toml; unchanged states are not re-sent (S-line cache, invalidated by every state-changing op)",
+       "open": ""}
+    ])
 }
 
 pub fn run(a: &Args) {
@@ -1004,8 +1677,22 @@ pub fn run(a: &Args) {
     let mut rng = Rng::new(a.seed);
     let mut cr = Rng::new(18);
     corpus(&mut out, &mut cr, a.tier == "thorough");
+    crate::srcscan::report(&mut out, "C18", "api_coverage(scanned from the source of the dependency)", &["src/replication/anti_entropy.rs", "src/simulator/multi_node.rs"], &coverage);
+    out.extra.insert("audit".into(), audit());
     for i in 0..a.n {
-        scenario(&mut out, &mut rng, i);
+        // a panic of the real code inside a scenario is a reported case, not a dead harness
+        let prev = std::panic::take_hook();
+        let msg = std::sync::Arc::new(std::sync::Mutex::new(String::new()));
+        let m2 = msg.clone();
+        std::panic::set_hook(Box::new(move |info| { *m2.lock().unwrap() = info.to_string(); }));
+        let r = std::panic::catch_unwind(std::panic::AssertUnwindSafe(|| scenario(&mut out, &mut rng, i)));
+        std::panic::set_hook(prev);
+        if r.is_err() {
+            let text = msg.lock().unwrap().clone();
+            let short: String = text.chars().filter(|c| !c.is_whitespace() || *c == ' ').take(120).collect();
+            out.violation(&format!("C18:panic:{}", short.split(':').take(3).collect::<Vec<_>>().join(":").replace(' ', "_")),
+                &format!("the real code panicked inside generated case {} ({})", i, text), json!({"case": i, "seed": a.seed, "panic": text}));
+        }
     }
     out.finish("case = one generated state content (0-60 keys; plain SET/DEL values from real replicas, structured random values of all six CRDT kinds, values reachable by ops + delta delivery) at a Merkle depth 0-3 or 8, driven as (i) two real HashMaps built from it in different insertion / merge orders and (ii) a mutated copy (value / key-set / expiry / non-LWW content / vc / rf / stamp changes), through StateDigest::from_state, differs_from, divergent_buckets, get_keys_in_buckets and 1-5 rounds of run_anti_entropy_sync with limits below and above the bucket population; distinct by (depth, canonical state); non-trivial iff some bucket holds >= 2 keys");
 }
